@@ -37,6 +37,7 @@ Y = np.array([0.0, 1.0, NAN, 1.0])
 W = np.array([1.0, 2.0, 0.5, 1.0])
 IDX_MENU = [(0,), (1,), (2,), (3,), (0, 1), (2, 3), (1, 2), (0, 3)]
 ALL = np.arange(4)
+UNSORTED = np.array([3, 1, 1, 0])
 PREFIT = [0, 3]  # training set of the classifier in the "prefit" configurations
 
 
@@ -198,18 +199,21 @@ class Ref:
                 yi = np.array([c[1] for c in self.cur], dtype=float)
                 wi = np.array([c[2] for c in self.cur], dtype=float) if self.cfg["wts"] else None
                 clf.fit(xi, yi) if wi is None else clf.fit(xi, yi, sample_weight=wi)
-            out = {"proba": np.asarray(clf.predict_proba(X), dtype=float)}
+            out = {"proba": np.asarray(clf.predict_proba(X), dtype=float), "proba@unsorted": np.asarray(clf.predict_proba(X[UNSORTED]), dtype=float)}
             if hasattr(clf, "predict_freq"):
                 out["freq"] = np.asarray(clf.predict_freq(X), dtype=float)
+                out["freq@unsorted"] = np.asarray(clf.predict_freq(X[UNSORTED]), dtype=float)
             return out
 
 
 def observe(w):
     with warnings.catch_warnings():
         warnings.simplefilter("ignore")
-        out = {"proba": np.asarray(w.predict_proba(ALL), dtype=float)}
+        # predictions are requested for all indices in order and for an unsorted index list with a repetition
+        out = {"proba": np.asarray(w.predict_proba(ALL), dtype=float), "proba@unsorted": np.asarray(w.predict_proba(UNSORTED), dtype=float)}
         if w.clf.__class__.__name__ == "ParzenWindowClassifier":
             out["freq"] = np.asarray(w.predict_freq(ALL), dtype=float)
+            out["freq@unsorted"] = np.asarray(w.predict_freq(UNSORTED), dtype=float)
         out["pred"] = np.asarray(w.predict(ALL), dtype=float)
         return out
 
@@ -332,7 +336,7 @@ def compare_speedup(acc, cfg, tier):
         elif a[0] == "ok":
             acc.traces_validated += 1
             for k in a[1]:
-                if not np.allclose(a[1][k], b_[1][k], rtol=1e-9, atol=1e-12, equal_nan=True):
+                if a[1][k].shape != b_[1][k].shape or not np.allclose(a[1][k], b_[1][k], rtol=1e-9, atol=1e-12, equal_nan=True):
                     acc.violation(name, "speed_up_changes_prediction", "%s: %s with speed-up %s, without %s" % (fmt(h), k, np.round(a[1][k], 5).tolist(),
                                   np.round(b_[1][k], 5).tolist()), wit, {}, rep, len(h))
                     break
@@ -375,7 +379,7 @@ def replay(spec):
         name = "IndexClassifierWrapper[speed_up on/off]"
         if a[0] != b_[0] or (a[0] == "exc" and a[1] != b_[1]):
             out.append((name, "speed_up_changes_outcome"))
-        elif a[0] == "ok" and any(not np.allclose(a[1][k], b_[1][k], rtol=1e-9, atol=1e-12, equal_nan=True) for k in a[1]):
+        elif a[0] == "ok" and any(a[1][k].shape != b_[1][k].shape or not np.allclose(a[1][k], b_[1][k], rtol=1e-9, atol=1e-12, equal_nan=True) for k in a[1]):
             out.append((name, "speed_up_changes_prediction"))
         return out
     name = _name(cfg)
